@@ -234,6 +234,37 @@ claim("C07",
       "the statistics (waiting-time and choice distributions, Poisson law), non-negativity, strict increase of time",
       "DESIGN.md section 6 C07")
 
+claim("C01",
+      "Both initialize call sites pass the C parameter count and, position by position, the matching ctypes type; every "
+      "Python buffer has the extent the engine reads; each table (k, sub, sto, D, mesh_kr, mesh_kd and its ragged twins, "
+      "state) has one layout at all its subscripts and the Python builders use the same one; the Euler pipeline is "
+      "dimensionally homogeneous with mesh_kr : Q^(1-n)/T, mesh_kd : 1/T and the derivative amount/time (which forces the "
+      "volume exponent 1-order and the division by edge^2 / volume x distance); the four implementations of the interface "
+      "diffusivity (kinetics grid and graph, engine 3D and graph) are the same symmetric rational function, zero unless "
+      "both coefficients are non-zero; the Euler derivative pass does not write the state and the update is "
+      "x[I] += dxdt[I]*dt; k and D are selected by the cell's environment index, Python lookups by its label with the "
+      "documented fallback; the Python siblings have the mass-action / first-order structure.",
+      "static analysis: ctypes-signature and extent agreement (FFI), index-kind and layout inference (IDX), dimensional "
+      "abstract interpretation with a symbolic reaction order (DIM), exact rational normal forms of sibling formulas "
+      "(GVN), effect inventory and update summaries",
+      "agreement of the numbers to rounding; that the mean is harmonic only relatively (all four agree, symmetric, right "
+      "dimension); a dimensionally consistent numeric change applied to all siblings at once",
+      "DESIGN.md section 6 C01")
+
+claim("C04",
+      "Every double handed to the engine is `X.convert(units_system).value` (or built by a function that converts each "
+      "entry) with the one engine units system fixed, molecule-overridden and remembered before marshalling, and the "
+      "output is re-wrapped with that system and the right dimension before conversion to the script's; all additive / "
+      "comparison operations of the six engines, clock and sampling included, are dimensionally homogeneous; every reader "
+      "resolves its level's units system from its own dictionary with the parent as fallback and hands exactly that to "
+      "its children, loaders pass the parent through; the 13 dimensioned setters read bare numbers in the owner's system, "
+      "which every constructor assigns first; all 35 `.value` extractions outside units.py are taken after a conversion, "
+      "next to the same object's units, or compared with 0.",
+      "static analysis: syntactic tag analysis of every `.value` site and ctypes argument (TAG), dimensional abstract "
+      "interpretation of the engine (DIM), def-use of the units-system argument along the reader chain",
+      "equality of the numbers after rounding",
+      "DESIGN.md section 6 C04")
+
 NOT_YET = {}
 
 def main():
